@@ -272,9 +272,12 @@ func (g *gen) corrupt(p *Plan) {
 	}
 	if g.r.Chance(1, 12) {
 		// splice: the head of this frame, the tail of another one
-		t, _, _, _ := g.storedFrame(p, 4, false)
+		t, _, n2, _ := g.storedFrame(p, 4, false)
 		st.Tail2 = &t
 		st.Mut = append(st.Mut, Mutation{Kind: "splice", Block: g.r.Intn(nb), B2: g.r.Intn(4)})
+		if n2 > n {
+			n = n2 // the spliced stream may decode to as much as the other frame holds
+		}
 	}
 	conc := g.r.PickInt(1, 1, 2, 4)
 	src := Source{Stored: st, Frag: g.fragFor(n), EOFWithData: g.r.Chance(1, 4)}
@@ -311,6 +314,7 @@ func (g *gen) hostile(p *Plan) {
 	case 2: // grammar-built hostile streams
 		p.Inputs = []Input{{Class: "mixed", Len: 200000, Seed: g.r.Uint64()}}
 		st = Stored{Base: "hostile", In: 0, Hostile: g.hostileGrammar()}
+		n = 600000 // what such a stream may decode to: keeps the number of Read calls bounded
 	default: // every first word around the reserved values, then a valid frame
 		word := uint32(0x184D2A00 + g.r.Intn(256))
 		switch g.r.Intn(8) {
